@@ -357,6 +357,15 @@ def run(repo, res, tier):
     discharge_arena(repo, mir, reach, res)
     discharge_intern(repo, res)
     RPL.phase_check(repo, res)
+    # the `unreachable!()` on a within-word symbol inside a within-word regex (regex::RegexInput::is_star_subword) is discharged by
+    # "within-word expressions are flattened": that argument is the traversal completeness of the two flattening passes
+    from . import common
+    common.run_traversals(repo, res, only={"parse::flatten_expr", "check::collapse_subwords"})
+    # the definition-edge recursions (do_check_subword_spaces, resolve_nonterminals) are bounded only because the cycle check ran on
+    # every definition: its exemptions (early returns, skipped vertices) are the enumerated ones
+    from vlib import rules_skips as SK, tables
+    n_sk = SK.skips_rule(repo, res, tables.load("skips")["row"], only={"check::get_nonterminals_resolution_order", "check::traverse_nonterminal_dependencies_dfs", "check::get_not_depended_on_nonterminals"})
+    res.floor("SKIPS", n_sk, 12)
     exit_rule(repo, mir, reach, inv, res)
     rec_rule(repo, mir, reach, res)
     ord_rule(repo, mir, res)
